@@ -94,8 +94,17 @@ func renderGo(x interface{}) string {
 
 // ---- rendering of records (Sexp) ----------------------------------------------
 
+// how often a returned record carried the registered name / the Go type name of its type
+// (fillHashHelper takes the first registry key whose factory matches while ranging over a Go map)
+var typeNameRegistered, typeNameGo int
+
 func canonType(tn string) string {
 	if rt := zygo.GoStructRegistry.Lookup(tn); rt != nil && rt.ReflectName != "" {
+		if tn == rt.ReflectName {
+			typeNameGo++
+		} else {
+			typeNameRegistered++
+		}
 		return rt.ReflectName // the alias pair (registered name, Go type name) is one class
 	}
 	return tn
@@ -463,7 +472,9 @@ func main() {
 	out.Extra["echo_methods"] = len(rn.echo)
 
 	if a.Replay != "" {
-		// replay: not needed, every case is self-contained in the cases file; rerun with the same seed
+		rn.replay(a.Replay)
+		out.Close(a.Stats)
+		return
 	}
 	rng := lib.NewRng(a.Seed)
 	g0 := newGen(u, rng.Fork())
@@ -548,5 +559,7 @@ func main() {
 			rn.caseMix(root, s, 40, "stream:mixshare")
 		}
 	}
+	out.Extra["returned_type_name_registered"] = typeNameRegistered
+	out.Extra["returned_type_name_go_alias"] = typeNameGo
 	out.Close(a.Stats)
 }
